@@ -22,6 +22,8 @@ CONSTANTS
     CompactKinds,  \* SUBSET {"zero", "cur", "cur-1", "cur-2", "old", "above"}
     EventKeys,     \* keys that are Event records (expire)
     Expiry,        \* TRUE: the engine has no native TTL, expiry happens inside compaction
+    CompactAfter,  \* compaction requests are only issued after this many requests (generator bias; 0 in MC configs)
+    DelFaultKinds, \* {} or SUBSET {"err", "cas", "die"}: a compaction may have one deletion fail / may be interrupted
     GenHist
 
 VARIABLES idx, ver,     \* stored records
@@ -117,24 +119,37 @@ Clamp(req) == IF req = 0 \/ req > rev THEN rev ELSE req
 \* them is used; "ttl" \in {0, 1, ...} = how many of the OLDEST marks have aged beyond the TTL
 TimeoutRev(aged) == IF aged = 0 THEN 0 ELSE marks[aged]
 
-Compact(kind, aged) ==
+MaxDels == 3 * Cardinality(Keys) + MaxOps
+\* crash = number of deletions attempted before the compactor dies (MaxDels = never dies);
+\* bad = index of the one deletion that fails (0 = none) with outcome fk
+CompactF(kind, aged, crash, bad, fk) ==
     LET R == Clamp(ReqRev(kind))
         texp == IF Expiry THEN TimeoutRev(aged) ELSE 0
         run == WorkerRun(Records(idx, ver, KMin, KMax + 1), R, 0, TRUE, texp, EventKeys)
-        fate == [i \in 1..Len(run.dels) |-> "ok"]
-        st == ApplyDeletes(idx, ver, run.dels, fate, 1, Len(run.dels), 0) IN
+        m == Len(run.dels)
+        fate == [i \in 1..m |-> IF i = bad THEN fk ELSE "ok"]
+        st == ApplyDeletes(idx, ver, run.dels, fate, 1, IF crash > m THEN m ELSE crash, 0) IN
     /\ n < MaxOps /\ n' = n + 1
+    /\ (crash <= m \/ crash = MaxDels) /\ bad <= m
     /\ idx' = st.idx /\ ver' = st.ver
     /\ floor' = IF R > floor THEN R ELSE floor
     /\ marks' = SubSeq(Append(marks, R), aged + 1, Len(marks) + 1)
-    /\ expired' = expired \cup {d.k : d \in {run.dels[i] : i \in {j \in 1..Len(run.dels) : texp > 0 /\ run.dels[j].k \in EventKeys /\ run.dels[j].r = 0}}}
+    /\ expired' = expired \cup {k \in EventKeys : texp > 0 /\ st.idx[k] = NoIdx /\ st.ver[k] = {} /\ (idx[k] # NoIdx \/ ver[k] # {})}
     /\ lastFloors' = Append(lastFloors, floor')
-    /\ H([op |-> "compact", req |-> ReqRev(kind), hdr |-> R, aged |-> aged, floor |-> floor', texp |-> texp])
+    /\ H([op |-> "compact", req |-> ReqRev(kind), hdr |-> R, aged |-> aged, floor |-> floor', texp |-> texp,
+          crash |-> crash, bad |-> bad, fk |-> fk, ndels |-> m])
     /\ UNCHANGED <<hver, rev>>
+
+Compact(kind, aged) ==
+    IF DelFaultKinds = {}
+    THEN CompactF(kind, aged, MaxDels, 0, "ok")
+    ELSE \/ CompactF(kind, aged, MaxDels, 0, "ok")
+         \/ \E crash \in 0..MaxDels : ("die" \in DelFaultKinds /\ CompactF(kind, aged, crash, 0, "ok"))
+         \/ \E bad \in 1..MaxDels, fk \in DelFaultKinds \ {"die"} : CompactF(kind, aged, MaxDels, bad, fk)
 
 Next ==
     \/ Write
-    \/ ("compact" \in OpKinds /\ \E kind \in CompactKinds : \E aged \in 0..(IF Expiry THEN Len(marks) ELSE 0) : Compact(kind, aged))
+    \/ ("compact" \in OpKinds /\ n >= CompactAfter /\ \E kind \in CompactKinds : \E aged \in 0..(IF Expiry THEN Len(marks) ELSE 0) : Compact(kind, aged))
 
 Spec == Init /\ [][Next]_vars
 
@@ -165,7 +180,7 @@ PointRead(k, R) ==
 PointIsSnapshot ==
     \A k \in Keys : \A R \in Revs \cup {0} : (R = 0 \/ R >= floor) => PointRead(k, R) = PointRef(RefVer, k, R)
 
-IndexAgrees == \A k \in Keys : IndexAgreesK(idx[k], ver[k])
+IndexAgrees == \A k \in Keys : Writable(idx[k], ver[k])
 
 \* ---- C08
 FloorMonotone == \A i \in 1..Len(lastFloors) : i > 1 => lastFloors[i] >= lastFloors[i - 1]
@@ -190,16 +205,11 @@ StreamInvariant ==
 \* ---- C07: compaction at R, interrupted after any number of deletions and with any single
 \* deletion failing (certain error => key skipped; failed compare => only that deletion),
 \* leaves every read at R' >= R unchanged
-\* every key stays writable with normal semantics: the index of a live key names its newest version,
-\* a dead key has no index or a tombstoned one (over which a create may compare-and-swap)
-Writable(ix, vs) == LET x == Latest(vs) IN IF IsLive(x) THEN ix = [rev |-> x.rev, del |-> FALSE] ELSE (ix = NoIdx \/ ix.del)
 SnapAll(vr, R) == [k \in Keys |-> LET v == NewestLE(vr[k], R) IN IF IsLive(v) THEN v ELSE NoVer]
 CompactionSafeAt(R) ==
     LET run == WorkerRun(Recs, R, 0, TRUE, 0, {})
         m == Len(run.dels) IN
     \A crash \in 0..m : \A bad \in 0..m : \A kind \in {"err", "cas"} :
-        \* a failed compare can only come from the conditional delete of an index record
-        (bad > 0 /\ kind = "cas" => run.dels[bad].op = "delcur") =>
         LET fate == [i \in 1..m |-> IF i = bad THEN kind ELSE "ok"]
             st == ApplyDeletes(idx, ver, run.dels, fate, 1, crash, 0) IN
         /\ \A R2 \in R..rev : SnapAll(st.ver, R2) = SnapAll(ver, R2)
